@@ -1,7 +1,7 @@
 """C10 - full-state tomography reconstructs exactly (necessary structural conditions)."""
 from ..rules_flow import Flow
 from ..rules_tomo import W14_returns, B1_B2_counts, W_fitter, W3_indexing, S2_estimator, S3_normalisation, W1_W2_builders
-from ..rules_conv import U1_defined_attributes
+from ..rules_conv import U1_defined_attributes, W15_flag_forwarding
 
 
 def run(tree, rep, tier):
@@ -15,6 +15,7 @@ def run(tree, rep, tier):
     S2_estimator(rep, flow)
     S3_normalisation(rep, flow)
     U1_defined_attributes(rep, flow, ['tomography'])
+    W15_flag_forwarding(rep, flow)
     rep.trusted += ["Q1", "Q2", "Q5"]
     rep.assumptions += ["Pauli.evolve(C, frame='s') = C P C^dagger and frame='h' (default) = C^dagger P C with Qiskit's sign convention (trusted)"]
     rep.decided += ["bit-order consistency count key -> outcome integer -> Z mask -> Pauli (B1)", "k-th circuit fitted with k-th counts (W3) and with the readout it was composed with (W2)",
